@@ -40,6 +40,26 @@ func TestVX_C18_SM2Tables(t *testing.T) {
 		{"6-3-14", sm2Precomputed_6_3_14, sm2Precomputed_6_3_14_Remainder, 6, 3, 14, 4},
 		{"7-3-12", sm2Precomputed_7_3_12, sm2Precomputed_7_3_12_Remainder, 7, 3, 12, 4},
 	}
+	// the tables must equal their derivation not only at start-up but after the library has been used: run a workload that
+	// reads every table through every routine (all four comb schemes, the double-scalar routine incl. small and zero
+	// scalars, variable-point multiplication) before the entries are checked
+	{
+		g := NewSM2Generator()
+		for i := 0; i < 64; i++ {
+			k := sm2ref.Bytes32(new(big.Int).SetBytes(vx.Fill(fmt.Sprintf("c18w%d", i), 32)))
+			small := sm2ref.Bytes32(big.NewInt(int64(i)))
+			scalarBaseMult_SkipBitExtraction_4_2_32(k)
+			scalarBaseMult_SkipBitExtraction_5_3_17(k)
+			scalarBaseMult_SkipBitExtraction_6_3_14(k)
+			scalarBaseMult_SkipBitExtraction_7_3_12(k)
+			ScalarMixedMult_Unsafe(k, g, small)
+			ScalarMixedMult_Unsafe(small, g, k)
+			ScalarMixedMult_Unsafe(k, NewSM2Generator().Double(g), sm2ref.Bytes32(big.NewInt(int64(1)<<uint(i%40))))
+			ScalarMult(g, small)
+			scalarBaseMult_SkipBitExtraction_6_3_14(small)
+		}
+		r.Set("workload_calls_before_table_check", 64*9)
+	}
 	idx := 0
 	check := func(name string, j, i int, k *big.Int, x, y *[4]uint64) {
 		idx++
